@@ -183,7 +183,14 @@ func (g *gen) allow(class string) bool {
 }
 
 // varName names a fresh client variable: v<N>, or one of the short names while they last.
-func (g *gen) varName() string {
+func (g *gen) varName(nested bool) string {
+	if nested && len(g.shortNames) > 0 && !g.allow("short-var-in-literal") {
+		// a variable inside an input literal keeps its definition after extraction (recorded
+		// finding C03-variable-in-input-object); named like a canonical name it then collides
+		// with the canonicalised variables (C01-short-variable-name-inside-literal)
+		g.feat["excluded:short-var-in-literal"] = true
+		return g.next("v")
+	}
 	if len(g.shortNames) > 0 {
 		n := g.shortNames[0]
 		g.shortNames = g.shortNames[1:]
@@ -537,7 +544,7 @@ func (g *gen) argValue(t *ast.Type, locationHasDefault bool, label string) strin
 
 // variable declares a fresh variable usable in a position of type t and returns its name.
 func (g *gen) variable(t *ast.Type, nested bool, label string) string {
-	v := varDef{name: g.varName(), present: true}
+	v := varDef{name: g.varName(nested), present: true}
 	vt := *t
 	// a nullable position also accepts a non-null variable
 	if !vt.NonNull && rapid.IntRange(0, 3).Draw(g.t, label+"vnn") == 0 {
@@ -607,7 +614,8 @@ func (g *gen) value(t *ast.Type, depth int, label string, allowVars bool, place 
 		if rapid.IntRange(0, 9).Draw(g.t, label+"single") == 0 && t.Elem.Elem == nil && !strings.HasSuffix(place, "/item") {
 			// list coercion of a single non-list value (spec §3.11 input coercion); only for
 			// flat lists that are not themselves list items (the spec editions disagree there)
-			cls := "single@" + place
+			// a field of an input object that is itself a list item counts as nested
+			cls := "single@" + strings.Replace(place, "/item-nested", "-nested", 1)
 			if !g.o.NoSingle[cls] && (cls != "single@default-nested" || g.allow(cls)) {
 				et := *t.Elem
 				et.NonNull = true
@@ -649,7 +657,7 @@ func (g *gen) value(t *ast.Type, depth int, label string, allowVars bool, place 
 				continue
 			}
 			fplace := place
-			if !strings.HasSuffix(fplace, "-nested") && !strings.HasSuffix(fplace, "/item") {
+			if !strings.HasSuffix(fplace, "-nested") {
 				fplace += "-nested"
 			}
 			lit, v := g.value(f.Type, depth+1, label+f.Name, allowVars, fplace)
